@@ -247,6 +247,11 @@ func (s *verifC09Scenario) onConnecting(ctx context.Context, e ConnectEvent) (Co
 		rep.Credentials = &Credentials{UserID: "u", ExpireAt: time.Now().Unix() - 10}
 	case "exp":
 		rep.Credentials = &Credentials{UserID: "u", ExpireAt: time.Now().Unix() + 864000}
+	case "subexp":
+		// the connect fails after authentication: a connect-time server-side subscription whose
+		// expiration lies in the past is answered with ErrorExpired
+		rep.Credentials = &Credentials{UserID: "u"}
+		rep.Subscriptions = map[string]SubscribeOptions{"srv": {ExpireAt: time.Now().Unix() - 10}}
 	default:
 		rep.Credentials = &Credentials{UserID: "u"}
 	}
